@@ -252,7 +252,8 @@ impl<'a, T> Index<usize> for Col<'a, T> {
     /// assert_eq!(col[3], 0);
     /// ```
     fn index(&self, idx: usize) -> &Self::Output {
-        let pos = idx * (1 + self.skip);
+        // a wrapped product could land back inside the slice, so the multiplication is checked
+        let pos = idx.checked_mul(1 + self.skip).expect("index out of bounds");
         &self.v[pos]
     }
 }
@@ -364,7 +365,8 @@ impl<'a, T> Index<usize> for ColMut<'a, T> {
     /// assert_eq!(col[3], 0);
     /// ```
     fn index(&self, idx: usize) -> &Self::Output {
-        let pos = idx * (1 + self.skip);
+        // a wrapped product could land back inside the slice, so the multiplication is checked
+        let pos = idx.checked_mul(1 + self.skip).expect("index out of bounds");
         &self.v[pos]
     }
 }
@@ -380,7 +382,8 @@ impl<'a, T> IndexMut<usize> for ColMut<'a, T> {
     /// col[3] = 42;
     /// ```
     fn index_mut(&mut self, idx: usize) -> &mut Self::Output {
-        let pos = idx * (1 + self.skip);
+        // a wrapped product could land back inside the slice, so the multiplication is checked
+        let pos = idx.checked_mul(1 + self.skip).expect("index out of bounds");
         &mut self.v[pos]
     }
 }
